@@ -90,10 +90,12 @@ class GenericCallAdapter(Adapter):
         new_args, new_kwargs = cls.arguments(value)
 
         if node is not None and (
-            any(isinstance(arg, ast.Starred) for arg in node.args)
+            not isinstance(node, ast.Call)
+            or any(isinstance(arg, ast.Starred) for arg in node.args)
             or any(kw.arg is None for kw in node.keywords)
         ):
-            # star-expressions: the arguments can not be mapped to nodes
+            # no call (a variable, ...) or star-expressions:
+            # the arguments can not be mapped to nodes
             node = None
 
         if node is not None:
